@@ -302,6 +302,9 @@ class C06(core.Prop):
                 v2 = detect_df(cx.to_df(case['frame']), cons, epsilon=epsf, repair=False,
                                per_constraint=True, output_fields=[], write_all=True)
             det = v2.detected()
+            if det is None:
+                fail('no-detection', 'constraints failed (%d) but detection produced no records object' % v2.failures)
+                return F
             n = case['frame']['nrows']
             want_nf = [0] * n
             for col in case['frame']['cols']:
